@@ -1,11 +1,13 @@
 import JominiModel.Driver.Util
 import JominiModel.Model.BinLexer
 import JominiModel.Model.BinReader
+import JominiModel.Spec.BinReader
 /-
 ops of the binary byte→token layer (C08, and the binary clauses of C09 / C19 / C20):
 
   blex <hex>                         next_token until end/error: `<toks> <outcome> <pos>`
   bcut <hex> <k>                     blex of the first k bytes
+  bfits <cap> <hex>                  the hypothesis `Fits cap data` of the streaming theorems (executable form)
   blexid <hex>                       the same through next_id + read_* primitives
   bpeek <hex>                        `<peek_id|none> <peek_token|none>`
   bwrite <toks>                      Token::write of every token: hex
@@ -232,6 +234,10 @@ def handle : Handler
       if k > d.length then none else
       let (ts, term, p) := Lexer.run (d.take k)
       pure s!"{showToks ts} {showTerminal term} {p}"
+  | ["bfits", cw, h] => do
+      let d ← parseHex h
+      let cap ← cw.toNat?
+      pure (if fitsBuffer cap d then "true" else "false")
   | ["blexid", h] => (parseHex h).map fun d =>
       let (ts, term, p) := Lexer.runIds d
       s!"{showToks ts} {showTerminal term} {p}"
